@@ -334,7 +334,8 @@ class PeerSim(object):
         ans.gram_dual = -np.array(sol["bars"][0], dtype=float)
         for l in cap.lmis:
             for (pos, key) in l["links"]:
-                ans.link_dual[(id(l), pos)] = float(sol["y"][pos])
+                # rows are sent as "expression - entry = 0": the multiplier of "entry - expression" is -y
+                ans.link_dual[(id(l), pos)] = -float(sol["y"][pos])
         ov = 0.0
         for j, cj in task.c.items():
             ov += cj * sol["xx"][j]
